@@ -41,7 +41,7 @@ class C02(Prop):
             "strict/weak/partial votes with repeats within and across calls, numpy int ids; each history is replayed "
             "with the same multiset of votes regrouped into different operations; non-trivial = >= 2 operations and "
             "some vote repeated")
-    budget = {"quick": 250, "thorough": 2500}
+    budget = {"quick": 250, "thorough": 10000}
     anchors = [("preflibtools.instances.preflibinstance.ordinal", "OrdinalInstance." + n) for n in
                ("append_order", "append_order_array", "append_order_list", "append_vote_map", "infer_type",
                 "vote_map", "full_profile", "flatten_strict", "populate_IC", "populate_urn", "populate_mallows",
